@@ -11,7 +11,7 @@ use nom::{
     branch::alt,
     bytes::streaming::{tag, tag_no_case, take_while, take_while1},
     character::streaming::char,
-    combinator::{map, map_res, opt, recognize, value},
+    combinator::{map, map_res, opt, recognize},
     multi::{many0, many1},
     sequence::{delimited, pair, preceded, terminated, tuple},
     IResult,
@@ -259,29 +259,38 @@ fn mailbox_data_exists(i: &[u8]) -> IResult<&[u8], MailboxDatum> {
 }
 
 fn name_attribute(i: &[u8]) -> IResult<&[u8], NameAttribute> {
-    alt((
-        // RFC 3501
-        value(NameAttribute::NoInferiors, tag_no_case(b"\\Noinferiors")),
-        value(NameAttribute::NoSelect, tag_no_case(b"\\Noselect")),
-        value(NameAttribute::Marked, tag_no_case(b"\\Marked")),
-        value(NameAttribute::Unmarked, tag_no_case(b"\\Unmarked")),
-        // RFC 6154
-        value(NameAttribute::All, tag_no_case(b"\\All")),
-        value(NameAttribute::Archive, tag_no_case(b"\\Archive")),
-        value(NameAttribute::Drafts, tag_no_case(b"\\Drafts")),
-        value(NameAttribute::Flagged, tag_no_case(b"\\Flagged")),
-        value(NameAttribute::Junk, tag_no_case(b"\\Junk")),
-        value(NameAttribute::Sent, tag_no_case(b"\\Sent")),
-        value(NameAttribute::Trash, tag_no_case(b"\\Trash")),
-        // Extensions not supported by this crate
-        map(
-            map_res(
-                recognize(pair(tag(b"\\"), take_while(is_atom_char))),
-                from_utf8,
-            ),
-            |s| NameAttribute::Extension(Cow::Borrowed(s)),
+    // Classify the complete flag, so that a longer flag which merely starts
+    // with a known name (`\\AllMail`) is still reported as an extension.
+    map(
+        map_res(
+            recognize(pair(tag(b"\\"), take_while(is_atom_char))),
+            from_utf8,
         ),
-    ))(i)
+        |s| {
+            let known = [
+                // RFC 3501
+                ("\\Noinferiors", NameAttribute::NoInferiors),
+                ("\\Noselect", NameAttribute::NoSelect),
+                ("\\Marked", NameAttribute::Marked),
+                ("\\Unmarked", NameAttribute::Unmarked),
+                // RFC 6154
+                ("\\All", NameAttribute::All),
+                ("\\Archive", NameAttribute::Archive),
+                ("\\Drafts", NameAttribute::Drafts),
+                ("\\Flagged", NameAttribute::Flagged),
+                ("\\Junk", NameAttribute::Junk),
+                ("\\Sent", NameAttribute::Sent),
+                ("\\Trash", NameAttribute::Trash),
+            ];
+            for (name, attribute) in known {
+                if s.eq_ignore_ascii_case(name) {
+                    return attribute;
+                }
+            }
+            // Extensions not supported by this crate
+            NameAttribute::Extension(Cow::Borrowed(s))
+        },
+    )(i)
 }
 
 #[allow(clippy::type_complexity)]
